@@ -6,6 +6,7 @@ package c17
 
 import (
 	"context"
+	"errors"
 	"fmt"
 	"math/rand/v2"
 	"sort"
@@ -117,6 +118,140 @@ func execPNQ(t *testing.T, w WL, cfg simrt.Config) simh.Outcome {
 		o.Class, o.Detail = "oracle:spurious_error", fmt.Sprintf("fault-free parallel node query (%s, %d workers) returned %v", w.Driver, w.Workers, retErr)
 	case fmt.Sprint(got) != fmt.Sprint(want):
 		o.Class, o.Detail = "oracle:node_query", fmt.Sprintf("parallel node query (%s, %d workers) over node ids %v delivered %v; every matching node exactly once is %v", w.Driver, w.Workers, w.PIDs, got, want)
+	}
+	return o
+}
+
+// ---------------------------------------------------------------------------------------------
+// ops.Operation: reader jobs (read transactions) feed writer jobs (batch operations) through one
+// channel. Every value a reader submitted reaches exactly one writer, Done returns, nothing is left
+// behind; a failing reader job ends the operation with its error.
+
+func genOPQ(r *rand.Rand) WL {
+	w := WL{Mode: "opq", Workers: 1 + r.IntN(3), Depth: 1 + r.IntN(3)} // Workers = readers, Depth = writers
+	nj := 1 + r.IntN(4)
+	v := 0
+	for j := 0; j < nj; j++ {
+		n := r.IntN(5)
+		w.Writers = append(w.Writers, n) // values produced by reader job j
+		v += n
+	}
+	w.StopAt = 1 + r.IntN(w.Depth+1) // writer jobs
+	w.Cut = r.IntN(2) == 0           // writer jobs forward through channels.PipelineAll
+	if r.IntN(5) == 0 {
+		w.Fault = Fault{Kind: "reader_err", K: 1 + r.IntN(nj), Shape: r.IntN(nShapes)}
+	}
+	return w
+}
+
+func execOPQ(t *testing.T, w WL, cfg simrt.Config) simh.Outcome {
+	var (
+		got      []int
+		sent     []int
+		doneErr  error
+		returned bool
+		counters = map[string]int{}
+	)
+	res := simrt.Run(t, cfg, func(s *simrt.Sim) {
+		db := simdb.New()
+		db.DefaultGraph = "g"
+		db.Graph("g")
+		ctx := context.Background()
+		total := 0
+		for _, n := range w.Writers {
+			total += n
+		}
+		sink := make(chan int, total+1)
+		s.Spawn(func() {
+			op := ops.StartNewOperation[int](ops.OperationContext{Parent: ctx, DB: db, NumReaders: w.Workers, NumWriters: w.Depth})
+			for k := 0; k < w.StopAt; k++ {
+				if w.Cut && k%2 == 0 {
+					op.SubmitWriter(func(ctx context.Context, _ graph.Batch, inC <-chan int) error {
+						return channels.PipelineAll(ctx, inC, sink, func(v int) (int, error) { return v, nil })
+					})
+				} else {
+					op.SubmitWriter(func(ctx context.Context, _ graph.Batch, inC <-chan int) error {
+						for {
+							v, ok := channels.Receive(ctx, inC)
+							if !ok {
+								return nil
+							}
+							got = append(got, v)
+						}
+					})
+				}
+			}
+			next := 0
+			for j, n := range w.Writers {
+				vals := make([]int, n)
+				for i := range vals {
+					next++
+					vals[i] = next
+				}
+				fail := w.Fault.Kind == "reader_err" && w.Fault.K == j+1
+				op.SubmitReader(func(ctx context.Context, _ graph.Transaction, outC chan<- int) error {
+					for i, v := range vals {
+						if fail && i == len(vals)/2 {
+							break
+						}
+						if !channels.Submit(ctx, outC, v) {
+							return nil
+						}
+						sent = append(sent, v)
+					}
+					if fail {
+						s.NoteFault("reader_err")
+						return mkErr(w.Fault.Shape)
+					}
+					return nil
+				})
+			}
+			doneErr = op.Done()
+		drain:
+			for {
+				select {
+				case v := <-sink:
+					got = append(got, v)
+				default:
+					break drain
+				}
+			}
+			returned = true
+		})
+	})
+	o := simh.Outcome{Res: res, Counters: counters}
+	if res.Infra != "" || res.Panic != "" || res.Hang || res.Livelock || !returned {
+		return o
+	}
+	sort.Ints(got)
+	sort.Ints(sent)
+	o.Sample = map[string]any{"sent": sent, "received": got, "error": fmt.Sprint(doneErr)}
+	counters["reader_writer_operations"]++
+	if res.Faults["reader_err"] > 0 {
+		if doneErr == nil || !errors.Is(doneErr, errInjected) {
+			o.Class, o.Detail = "oracle:first_error", fmt.Sprintf("a reader job of an ops.Operation failed but Done returned %v", doneErr)
+			return o
+		}
+		// nothing invented, nothing twice
+		seen := map[int]bool{}
+		isSent := map[int]bool{}
+		for _, v := range sent {
+			isSent[v] = true
+		}
+		for _, v := range got {
+			if seen[v] || !isSent[v] {
+				o.Class, o.Detail = "oracle:operation", fmt.Sprintf("writers received %v, readers had submitted %v", got, sent)
+				return o
+			}
+			seen[v] = true
+		}
+		return o
+	}
+	switch {
+	case doneErr != nil:
+		o.Class, o.Detail = "oracle:spurious_error", fmt.Sprintf("fault-free ops.Operation: Done returned %v", doneErr)
+	case fmt.Sprint(got) != fmt.Sprint(sent):
+		o.Class, o.Detail = "oracle:operation", fmt.Sprintf("ops.Operation (%d readers, %d writers, %d writer jobs): readers submitted %v, writers received %v", w.Workers, w.Depth, w.StopAt, sent, got)
 	}
 	return o
 }
